@@ -86,6 +86,7 @@ DEFAULT_CFG = {
     'containers': True,     # local list / dict variables m0 / m1
     'nested_globals': 30,   # percent of nested defs declaring a name `global` (an enclosing local's name or G0/G1) and assigning it
     'kwpartials': True,     # functools.partial objects created WITH keywords (module level P0.. / local), called with extra/overriding keywords
+    'shape_jumpnest': 2,    # weight of the forced shape "jump nested in 1-3 non-loop blocks of a loop body, statements after each block"
     'shape_escape': 3,      # weight of the forced shape "closure stored under an alias, variable rebound in control flow, alias called"
     'shape_defpos': 2,      # weight of the forced shape "def at a drawn position of a compound statement, store, call after the join"
 }
@@ -451,6 +452,8 @@ class Gen(object):
           kinds += ['shape_try_return', 'shape_nested_try']
       if cfg['with'] and not cfg['pure']:
         kinds += ['with']
+      if cfg['jumps'] and cfg['shape_jumpnest'] and not env.in_finally:
+        kinds += ['shape_jumpnest'] * cfg['shape_jumpnest']
       if cfg['defs'] and env.fn_depth < 2:
         kinds += ['def']
     if cfg['lambdas']:
@@ -678,6 +681,8 @@ class Gen(object):
         self.note('raise_of_catchable_type')
       lines.append('%sraise %s(%s)' % (sp, self.choice(pool), self.expr(env, 1, False)))
       return None
+    if k == 'shape_jumpnest':
+      return self.shape_jumpnest(env, ind, lines)
     if k == 'shape_try_return':
       return self.shape_try_return(env, ind, lines)
     if k == 'shape_nested_try':
@@ -1446,6 +1451,82 @@ class Gen(object):
     return self.block(env, ind, lines)
 
   # ---- forced shapes (DESIGN 4.1): small templates with drawn holes ----------------------------
+  def shape_jumpnest(self, env, ind, lines):
+    """A loop whose body holds 1-3 nested non-loop blocks (if / else / with / try-finally / try-except / try-else),
+    a conditional continue / break / return in the innermost one, and an observable statement after the jump in
+    every enclosing block and after the loop: every block between the jump and its loop needs a guard."""
+    cfg = self.cfg
+    sp = '  ' * ind
+    effects = cfg['tracer'] and not cfg['pure']
+    x = self.target(env)
+    i = 'i%d' % self.newk()
+    n = self.integer(1, 3)
+    pool = ['if', 'else']
+    if cfg['with'] and not cfg['pure']:
+      pool += ['with']
+    if cfg['try'] and not cfg['pure']:
+      pool += ['try_finally', 'try_except', 'try_else']
+    wrappers = [self.choice(pool) for _ in range(n)]
+    jump = self.choice(['continue', 'continue', 'break', 'return'])
+    self.note('shape:jump_nested_in_blocks')
+    self.note('shape:jump_nested_in_blocks:%s:depth=%d' % (jump, n))
+    for w in set(wrappers):
+      self.note('shape:jump_nested_in:' + w)
+    self.note({'continue': 'continue', 'break': 'break', 'return': 'return'}[jump])
+    if jump == 'return':
+      self.note('early_return')
+
+    def bump(k):
+      return '%s = t(%s + %d)' % (x, x, k) if effects else '%s = %s + %d' % (x, x, k)
+    lines.append('%s%s = %s' % (sp, x, self.expr(env, 1)))
+    env = self.bind(env, x)
+    loop_while = self.chance(30)
+    if loop_while:
+      lines.append('%s%s = -1' % (sp, i))
+      lines.append('%swhile %s < 3:' % (sp, i))
+      lines.append('%s  %s += 1' % (sp, i))
+    else:
+      lines.append('%sfor %s in range(4):' % (sp, i))
+    d = 1
+    closers = []
+    for w in wrappers:
+      s2 = sp + '  ' * d
+      if w == 'if':
+        lines.append('%sif %s >= %d:' % (s2, i, self.integer(0, 1)))
+        closers.append((d, []))
+      elif w == 'else':
+        lines.append('%sif %s > 5:' % (s2, i))
+        lines.append('%s  pass' % s2)
+        lines.append('%selse:' % s2)
+        closers.append((d, []))
+      elif w == 'with':
+        lines.append('%swith CM(%d):' % (s2, self.newk()))
+        closers.append((d, []))
+      elif w == 'try_finally':
+        lines.append('%stry:' % s2)
+        closers.append((d, ['%sfinally:' % s2, '%s  %s' % (s2, bump(100))]))
+      elif w == 'try_except':
+        lines.append('%stry:' % s2)
+        closers.append((d, ['%sexcept E1:' % s2, '%s  pass' % s2]))
+      else:
+        # the jump sits in the else clause of a try
+        lines.append('%stry:' % s2)
+        lines.append('%s  %s' % (s2, bump(7)))
+        lines.append('%sexcept E1:' % s2)
+        lines.append('%s  pass' % s2)
+        lines.append('%selse:' % s2)
+        closers.append((d, []))
+      d += 1
+    s2 = sp + '  ' * d
+    lines.append('%sif %s == %d:' % (s2, i, self.integer(1, 2)))
+    lines.append('%s  %s' % (s2, {'continue': 'continue', 'break': 'break', 'return': 'return %s' % x}[jump]))
+    lines.append('%s%s' % (s2, bump(1)))
+    for dd, tail in reversed(closers):
+      lines.extend(tail)
+      lines.append('%s%s' % (sp + '  ' * dd, bump(10 ** min(dd, 3))))
+    lines.append('%s%s' % (sp, bump(3)))
+    return env
+
   def shape_try_return(self, env, ind, lines):
     """A try inside an if branch whose body ends in return, with an explicit raise before it that a
     fall-through handler of the same try catches; more statements follow the if."""
